@@ -307,6 +307,23 @@ def check(run):
     run.ob("R3-SEPARATOR", "add_space_if_necessary", ok, F.where(fz, cl),
            "add_space_if_necessary must test the buffer's last byte with the lexer's is_identifier_continuation and push ' '")
     # keywords cannot be glued to a preceding identifier/number: every keyword spelling starts with an identifier-continuation char
+    # ---- number arms write a formatted number and, for a suffixed integer, a type keyword -- nothing spelled out by hand: a literal
+    # fragment pushed next to the digits (a `_` "as in 255_u8", a sign, a prefix) is a spelling no table above covers, and `0_u8`
+    # is E141 for both lexers (a decimal zero has no digit run that could absorb the separator)
+    for v in ("NakedDecimal", "BitInteger", "SuffixedInteger"):
+        a = explicit.get(v)
+        run.require(a is not None, "fuzzer: arm for %s not found" % v)
+        literal_pushes = []
+        for c in hirq.calls(a["body"]):
+            if c.get("k") == "MethodCall" and c.get("name") in ("push", "push_str", "insert", "insert_str", "extend") and c.get("a"):
+                arg = hirq.unwrap_trivial(c["a"][-1])
+                while arg.get("k") == "AddrOf":
+                    arg = hirq.unwrap_trivial(arg["e"])
+                if arg.get("k") == "Lit":
+                    literal_pushes.append(c)
+        run.ob("R2-SPELLING", "%s|no hand-spelled fragment" % v, not literal_pushes, F.where(fz, literal_pushes[0]) if literal_pushes else F.where(fz, a),
+               "the %s arm pushes %d literal fragment(s) next to the formatted number: every character of a number comes out of a reviewed format template "
+               "or a type keyword" % (v, len(literal_pushes)))
     # ---- R4 escapes
     ea, ed = A.escape_tables(), D.escape_tables()
     for v, q in (("CharLiteral", 39), ("StringLiteral", 34)):
